@@ -39,6 +39,10 @@ class MemoryStorage(dict):
         uri, metadata = value
         super(MemoryStorage, self).__setitem__(key, (uri, metadata or frozenset()))
 
+    def __getitem__(self, key):
+        uri, metadata = super(MemoryStorage, self).__getitem__(key)
+        return uri, metadata.copy()     # never hand out the stored set itself
+
     def optimized_prefix_list(self, prefix, return_metadata=False):
         return None
 
@@ -50,7 +54,7 @@ class MemoryStorage(dict):
 
     def everything(self, return_metadata=False):
         if return_metadata:
-            return self.copy()
+            return {name: self[name] for name in self}
         return {name: uri for name, (uri, metadata) in self.items()}
 
     def remove_items(self, items):
